@@ -530,6 +530,11 @@ func value(r *prng.R, ty string) *sexp.S {
 func RunCase(r *prng.R, p *Profile, id string) *sexp.S {
 	g := &G{R: r, P: p}
 	g.hostWait = p.Weights["cmd"] > 0 && r.Intn(3) == 0
+	// a host that registers no handler before the run starts (no commands named wait then: the built-in would sleep)
+	bare := p.LateCmds && r.Intn(4) == 0
+	if bare {
+		g.hostWait = false
+	}
 	nn := 1 + r.Intn(p.MaxNodes)
 	g.titles = []string{"Start", "A", "B", "C_1"}[:nn]
 	if p.Untracked && nn >= 3 && r.Intn(10) == 0 {
@@ -714,8 +719,8 @@ func RunCase(r *prng.R, p *Profile, id string) *sexp.S {
 				ops.Add(sexp.L(sexp.A("hset"), sexp.N(j), sexp.Str(v), value(r, ty)))
 			}
 		default:
-			if p.LateCmds && r.Intn(12) == 0 {
-				ops.Add(sexp.L(sexp.A("addcmd"), sexp.N(j), sexp.Str("late")))
+			if p.LateCmds && r.Intn(10) == 0 {
+				ops.Add(sexp.L(sexp.A("addcmd"), sexp.N(j), sexp.Str(r.Pick("late", "late", "cmd"))))
 			}
 			if p.Ctl && r.Intn(4) == 0 {
 				ops.Add(sexp.L(sexp.A("complete"), sexp.N(j), sexp.A(r.Pick("ok", "ok", "err"))))
@@ -729,6 +734,9 @@ func RunCase(r *prng.R, p *Profile, id string) *sexp.S {
 		}
 	}
 	c := sexp.L(sexp.A("case"), sexp.A("run"), sexp.A(id), srcs, prog.Sexp(), sexp.L(sexp.A("seed"), sexp.Str(r.Pick("seed", "abc", "0", "z9", "verif1", "savegame00042", "zzzzzzzzzzzzzz", "chapter1scene2take3000", "1y2p0ij32e8e8"))), vars, ops)
+	if bare {
+		c.Add(sexp.L(sexp.A("bare")))
+	}
 	if g.hostWait {
 		// the host has handlers of its own under the names of the two built-ins: "wait" is replaced by it, "stop" never reaches it
 		c.Add(sexp.L(sexp.A("cmds"), sexp.Str("wait"), sexp.Str("stop")))
